@@ -11,6 +11,10 @@ LEVEL_NOTE = ("trusted base: g++ 12 + libasan/libubsan (libtsan for C20), the ha
               "the python driver; assumes the platform configuration compiled here (LP64, 4-byte wchar_t, signed char, C++20, glibc)")
 
 ASAN = {"build": "asan"}
+# thorough tier only: the same harness without sanitizers under valgrind memcheck, on a scaled-down workload.
+# memcheck sees what ASan cannot: a branch or address computed from an uninitialised unit.
+MEMCHECK = {"build": "plain", "name": "memcheck", "tiers": ("thorough",), "tier_override": "quick", "scale": 0.1, "workers": 16,
+            "wrapper": ["valgrind", "--tool=memcheck", "--error-exitcode=99", "--quiet", "--undef-value-errors=yes", "--leak-check=no", "--num-callers=16"]}
 
 PROPS = {}
 NOT_APPLICABLE = {}
@@ -164,6 +168,7 @@ P("C02", "validation modes accept, reject and repair malformed input correctly",
   dbits={"quick": 23, "thorough": 26})
 
 P("C03", "conversions are total and memory-safe on arbitrary input", "conv",
+  runs=[ASAN, MEMCHECK],
   level_text=("runtime monitoring: arbitrary unit sequences (the C02 malformed sets, every truncation of valid text, pure garbage of length 0..64, lead-byte-dense tails, empty and (nullptr,0), inputs of 64 Ki..1 Mi units) "
               "are handed to every conversion in exact-size heap blocks without terminator under ASan+UBSan: a read past the input or a write past the result lands in a red zone, any abort/assertion/crash/hang/foreign exception "
               "is reported through the driver, and size(), the terminator and every unit of the result are compared with the reference transcoding under the same mode (so an unwritten unit shows as a mismatch)"),
@@ -216,6 +221,7 @@ P("C17", "all output sinks emit the same bytes for the same format call", "sinks
   dbits={"quick": 22, "thorough": 25})
 
 P("C05", "buffers keep size, content, terminator and exclusive ownership over any history", "buffer",
+  runs=[ASAN, MEMCHECK],
   level_text=("runtime monitoring of histories: for each of char, wchar_t, char16_t and char32_t a pool of 8 buffers (each in a heap block of exactly sizeof(buffer) bytes) is driven through random sequences of "
               "construction, copy, move, copy/move assignment incl. self-assignment, allocate, clear, element writes, reads and destruction under ASan+UBSan; after every step every live buffer is compared with a "
               "shadow std::basic_string, its terminator is read, and its storage is classified through the replaced operator new/delete registry (in-object below the limit, otherwise exactly one exclusive new[] block of "
@@ -243,6 +249,7 @@ P("C04", "ST::string has value semantics: reads never mutate, results never alia
   dbits={"quick": 22, "thorough": 25})
 
 P("C16", "string_stream content equals the concatenation of everything appended", "sstream",
+  runs=[ASAN, MEMCHECK],
   level_text=("runtime monitoring of histories: a pool of 5 streams (each in a heap block of exactly sizeof(string_stream) bytes) is driven through random sequences of append (sizes around 256, 512, 1024... and single "
               "appends spanning several doublings), append_char, every operator<< overload (text of all widths incl. views that are sub-ranges of larger buffers, integers incl. min/max, floats, chars, ST::string, STL strings), "
               "truncate/erase to every size class, move construction/assignment in all four storage-mode combinations, use of moved-from streams and to_string in both interpretations and three validation modes, under "
